@@ -1,6 +1,7 @@
 package regosym
 
 import (
+	"encoding/json"
 	"fmt"
 	"regexp"
 	"strings"
@@ -83,13 +84,15 @@ func PathString(p Path) string { return p.pathString(true) }
 type Formula interface{}
 
 type Atom struct {
-	Path    Path
-	Kind    string // minCount maxCount exactCount minLength maxLength exactLength pattern in containsAll containsSome minInclusive minExclusive maxInclusive maxExclusive datatype lessThanProperty lessThanOrEqualsToProperty equalsToProperty disjointWithProperty
-	N       int
-	Values  []ast.Value
-	Pattern string
-	Type    string // xsd local name
-	Other   Path
+	Path      Path
+	FloatData bool   // in: the data holds non-integer numbers next to the (integer) members of the set
+	Bound     string // numeric comparisons: the bound as written when it is not an integer ("1.0000004"); N is unused then
+	Kind      string // minCount maxCount exactCount minLength maxLength exactLength pattern in containsAll containsSome minInclusive minExclusive maxInclusive maxExclusive datatype lessThanProperty lessThanOrEqualsToProperty equalsToProperty disjointWithProperty
+	N         int
+	Values    []ast.Value
+	Pattern   string
+	Type      string // xsd local name
+	Other     Path
 }
 
 // Rego is an embedded-Rego constraint (no reference semantics: used for equivalence checks only).
@@ -117,6 +120,9 @@ func Describe(f Formula) string {
 	switch x := f.(type) {
 	case Atom:
 		arg := fmt.Sprint(x.N)
+		if x.Bound != "" {
+			arg = x.Bound
+		}
 		switch x.Kind {
 		case "pattern":
 			arg = x.Pattern
@@ -254,6 +260,9 @@ func constraintYAML(f Formula, ind string) (string, string) {
 			arg = "true"
 		default:
 			arg = fmt.Sprint(x.N)
+			if x.Bound != "" {
+				arg = x.Bound
+			}
 		}
 		return PathString(x.Path), fmt.Sprintf("%s%s: %s\n", ind, x.Kind, arg)
 	case Nested:
@@ -267,7 +276,6 @@ func constraintYAML(f Formula, ind string) (string, string) {
 	}
 	panic("constraintYAML: not a property constraint")
 }
-
 
 // PC is one propertyConstraints block holding several constraints (of one or several properties):
 // their implicit conjunction, spelled the way profiles usually are.
@@ -557,6 +565,9 @@ func (r *Ref) Holds(f Formula, i int) (*smt.Term, *smt.Term) {
 			})
 		case "minInclusive", "minExclusive", "maxInclusive", "maxExclusive":
 			bound := ast.IntNumberTerm(x.N).Value
+			if x.Bound != "" {
+				bound = ast.Number(json.Number(x.Bound))
+			}
 			return forAll(V, func(v ast.Value) (bool, bool) {
 				if !isNumber(v) {
 					return false, false
